@@ -143,3 +143,29 @@ func Harness_C03_edge_or_vertex() {
 	}
 	vr.Reach("end")
 }
+
+// The stateless convenience function gives the same answer as the specification and hence
+// as the incremental crosser: Cross ⇒ true, DoNotCross ⇒ false, and at a shared vertex the
+// vertex rule applied to the edges in the order (AB, CD).
+func Harness_C03_stateless_edge_or_vertex() {
+	vr.Domain("RUF")
+	vrC03Stubs()
+	vr.Stub("VertexCrossing", "vrstub_C03_VertexCrossing")
+	a, b, c, d := vrFourPoints()
+	e := NewEdgeCrosser(a, b)
+	e.RestartAt(c)
+	maxError := (1.5 + 1/1.7320508075688772) * dblEpsilon
+	want := vrCrossSpec(a, b, c, d)
+	tangent := vr.Or(vr.And(c.Dot(e.aTangent.Vector) > maxError, d.Dot(e.aTangent.Vector) > maxError), vr.And(c.Dot(e.bTangent.Vector) > maxError, d.Dot(e.bTangent.Vector) > maxError))
+	vr.Assume(vr.Implies(tangent, want == DoNotCross))
+	got := EdgeOrVertexCrossing(a, b, c, d)
+	if want == Cross {
+		vr.Assert("stateless: Cross ⇒ true", got)
+	} else if want == DoNotCross {
+		vr.Assert("stateless: DoNotCross ⇒ false", !got)
+	} else {
+		vr.Assert("stateless: MaybeCross ⇒ VertexCrossing(a,b,c,d)", got == VertexCrossing(a, b, c, d))
+		vr.Assert("stateless == incremental crosser at a shared vertex", got == e.EdgeOrVertexChainCrossing(d))
+	}
+	vr.Reach("end")
+}
